@@ -106,7 +106,10 @@ fn compute_gap_resources(
         return WorkerResources::new(Vec::new().into());
     };
     let n_resources = n_unresources + 1;
-    let gap_res: Vec<ResourceAmount> = resources
+    // The result has to be indexed by resource id, as any other `WorkerResources`
+    let mut gap_res: Vec<ResourceAmount> =
+        vec![ResourceAmount::ZERO; resources.iter_amounts().count()];
+    resources
         .iter_pairs()
         .map(|(r_id, r_amount)| {
             let mut solver = LpSolver::new(false);
@@ -138,11 +141,16 @@ fn compute_gap_resources(
                 );
             }
             let Some((_, v)) = solver.solve() else {
-                return ResourceAmount::ZERO;
+                return (r_id, ResourceAmount::ZERO);
             };
-            r_amount - ResourceAmount::from_float(v.round() as f32)
+            (
+                r_id,
+                r_amount - ResourceAmount::from_float(v.round() as f32),
+            )
         })
-        .collect();
+        .collect::<Vec<_>>()
+        .into_iter()
+        .for_each(|(r_id, amount)| gap_res[r_id.as_usize()] = amount);
     WorkerResources::new(gap_res.into())
 }
 
